@@ -94,15 +94,14 @@ def fit(ctx, vine_type, df, truncated, sentinel='pos', random_state=None, past=N
     return model, p
 
 
-REFUSAL_SITES = ('base.py:fit', 'base.py:check_marginal', 'base.py:check_theta', 'gumbel.py:compute_theta')
-
-
 def is_refusal(exc):
     """A vine fit may refuse a table with ValueError when a pair copula cannot be calibrated (constant or
-    out-of-range pseudo-observations from near-duplicate columns, inadmissible theta).  Any other
-    ValueError - e.g. one raised while assembling the trees - is not a refusal."""
-    from vmon.core import exc_site
-    return isinstance(exc, ValueError) and exc_site(exc) in REFUSAL_SITES
+    out-of-range pseudo-observations from near-duplicate columns, inadmissible theta): such a ValueError is
+    raised inside the bivariate package.  A ValueError raised while assembling the trees (multivariate
+    package) is not a refusal."""
+    from vmon.core import exc_origin
+    origin = exc_origin(exc)
+    return isinstance(exc, ValueError) and origin is not None and origin.startswith('bivariate/')
 
 
 def edge_vars(e):
